@@ -12,7 +12,7 @@ from .. import engine, common
 
 ID = "C12"
 
-MODES = ["fn", "mod", "trait_self", "static_target", "trait_ref", "dyn_target"]
+MODES = ["fn", "fn_conc", "mod", "trait_self", "static_target", "trait_ref", "dyn_target"]   # fn_conc: concrete dependency (the trait goes through a nested invocation)
 RETS = {
     # kind -> (return type as written, Output type to ascribe, extra generics, extra params, extra args, value expr (fn modes), value expr (trait modes), expected Display)
     "unit": dict(ret="", out="()", g="", ps="", args="", val="()", tval="()", exp="()"),
@@ -32,7 +32,7 @@ FLK = {"native": "na", "async_trait": "as", "async_trait_re": "ar"}
 def enumerate_states(tier):
     states = []
     for mode, ret, ms, body in itertools.product(MODES, RETS, (False, True), ("clean", "rc")):
-        flavours = {"fn": ["native"], "mod": ["native"], "trait_self": ["native", "async_trait"], "static_target": ["native", "async_trait"],
+        flavours = {"fn": ["native"], "fn_conc": ["native"], "mod": ["native"], "trait_self": ["native", "async_trait"], "static_target": ["native", "async_trait"],
                     "trait_ref": ["async_trait"], "dyn_target": ["async_trait"]}[mode]
         flavours = flavours + (["async_trait_re"] if "async_trait" in flavours else [])   # the attribute named through a re-export
         for fl in flavours:
@@ -40,7 +40,7 @@ def enumerate_states(tier):
                 continue   # generic methods are not dyn-compatible
             if mode == "static_target" and ret == "generic":
                 continue   # type parameters of impl-block fns are lifted to the delegation-target trait: generic methods are unsupported there
-            for mixed in ((False, True) if mode not in ("fn",) else (False,)):
+            for mixed in ((False, True) if mode not in ("fn", "fn_conc") else (False,)):
                 states.append(dict(key="s_%s_%s_%s_%s_%s%s" % (mode, ret, "ms" if ms else "send", FLK[fl], body, "_mix" if mixed else ""), mode=mode, ret=ret,
                                    maybe_send=ms, flavour=fl, body=body, mixed=mixed))
             if mode in ("trait_self", "trait_ref") and not (mode == "trait_ref" and ret == "generic"):
@@ -80,6 +80,11 @@ def render(s):
     if mode == "fn":
         L.append("    #[::entrait::entrait(pub Tr%s)]" % opt)
         L.append("    %s %s" % (fn_sig("m", r, "deps: &impl Dep"), body_of(s, r["val"])))
+    elif mode == "fn_conc":
+        L.append("    pub struct CApp { pub num: i64 }")
+        L.append("    impl Dep for CApp { fn num(&self) -> &i64 { &self.num } }")
+        L.append("    #[::entrait::entrait(pub Tr%s)]" % opt)
+        L.append("    %s %s" % (fn_sig("m", r, "deps: &CApp"), body_of(s, r["val"])))
     elif mode == "mod":
         L.append("    #[::entrait::entrait(pub Tr%s)]" % opt)
         L.append("    pub mod inner { use super::*;")
@@ -132,9 +137,9 @@ def render(s):
             L.append("    impl ::core::convert::AsRef<dyn TrImpl<Self> + ::core::marker::Sync> for App { fn as_ref(&self) -> &(dyn TrImpl<Self> + ::core::marker::Sync + 'static) { &X } }")
         else:
             L.append("    impl DelegateTr<Self> for App { type Target = X; }")
-    app = "::entrait::Impl::new(RApp { p: P { num: 7 } })" if mode == "trait_ref" else "::entrait::Impl::new(App { num: 7 })"
+    app = "::entrait::Impl::new(RApp { p: P { num: 7 } })" if mode == "trait_ref" else "::entrait::Impl::new(CApp { num: 7 })" if mode == "fn_conc" else "::entrait::Impl::new(App { num: 7 })"
     # (type parameters of entraited fns are lifted to the generated trait: `Tr<T>`)
-    TR = "Tr<i64>" if (s["ret"] == "generic" and mode in ("fn", "mod")) else "Tr"
+    TR = "Tr<i64>" if (s["ret"] == "generic" and mode in ("fn", "fn_conc", "mod")) else "Tr"
     L.append("    fn declared_send<D: %s>(d: &D) -> bool { let fut = d.m(%s); is_send_val!(fut) }" % (TR, call_args))
     L.append("    pub fn client() {")
     L.append("        let app = %s;" % app)
